@@ -24,11 +24,14 @@ def gen_pool(rng, n=4, locals_=False, epochs=True, self_regular=None):
         pool.append(rng.choice(["1!", "2!"]) + rng.choice(bases))
     return pool
 
-def gen_clause(rng, pool, ops=OPS):
+def gen_clause(rng, pool, ops=OPS, wild_suffix=False):
     op = rng.choice(ops)
     v = rng.choice(pool)
     if op in ("==*", "!=*"):
         base = v.split("+")[0]
+        if wild_suffix and rng.random() < 0.4:
+            # poetry-core also accepts a wildcard after a pre/post/dev segment (PEP 440 does not): '==1.2a1.*', '==1.2.post1.dev0.*'
+            return op[:2] + base + ".*"
         for suf in SUFFIX:
             if suf and base.endswith(suf):
                 base = base[: -len(suf)]
@@ -36,11 +39,11 @@ def gen_clause(rng, pool, ops=OPS):
     sp = rng.choice(["", "", "", " "])
     return op + sp + v
 
-def gen_group(rng, pool, ops=OPS, maxc=3):
+def gen_group(rng, pool, ops=OPS, maxc=3, wild_suffix=False):
     n = rng.choice([1, 1, 2, 2, 3][: 2 + maxc])
     sep = rng.choice([",", ", ", ",", " , "])
-    return sep.join(gen_clause(rng, pool, ops) for _ in range(n))
+    return sep.join(gen_clause(rng, pool, ops, wild_suffix) for _ in range(n))
 
-def gen_constraint(rng, pool, ops=OPS, maxg=3, maxc=3):
+def gen_constraint(rng, pool, ops=OPS, maxg=3, maxc=3, wild_suffix=False):
     n = rng.choice([1, 1, 2, 2, 3][: 2 + maxg])
-    return rng.choice([" || ", " || ", "||", " | "]).join(gen_group(rng, pool, ops, maxc) for _ in range(n))
+    return rng.choice([" || ", " || ", "||", " | "]).join(gen_group(rng, pool, ops, maxc, wild_suffix) for _ in range(n))
